@@ -26,6 +26,9 @@ Fault = {"job": "/b/0.10", "phase": "schedule"|"transfer"|"execute",
  all  : fail-stop, the whole volatile deployment work directory is deleted (what the
         test-suite's FAIL_STOP does)
 Every deletion is logged with the files that really existed (the loss record).
+Optional ordering gates of a fault (C17): "hold": [jobs] - those jobs stay inside their command
+(RUNNING) until the faulty job gets past its failures (for ever when it never does: the engine has to
+cancel them); "after": [jobs] - the faulty job's first attempt waits until those jobs completed.
 """
 from __future__ import annotations
 
@@ -111,6 +114,9 @@ class H:
     losses: list = []
     outputs: dict = {}  # output path -> job that wrote it (latest execution)
     barriers: dict = {}
+    holds: dict = {}  # job -> [Event]: the job waits inside its command until all are set
+    passed: dict = {}  # (job, phase) of a fault -> Event set when that job got past its failures
+    done: dict = {}  # job -> Event set at its first successful execution (for "after" gates)
     clock = 0
     volatile = None  # the volatile work directory
     durations = None  # random.Random for job durations (yields)
@@ -134,6 +140,16 @@ class H:
         cls.losses = []
         cls.outputs = {}
         cls.barriers = {}
+        cls.holds = {}
+        cls.passed = {}
+        cls.done = {}
+        for f in faults:
+            ev = asyncio.Event()
+            cls.passed[(f["job"], f["phase"])] = ev
+            for j in f.get("hold", ()):
+                cls.holds.setdefault(j, []).append(ev)
+            for j in f.get("after", ()):
+                cls.done.setdefault(j, asyncio.Event())
         groups = collections.Counter(f["barrier"] for f in faults if f.get("barrier") is not None)
         for g, n in groups.items():
             cls.barriers[g] = Barrier(n)
@@ -190,8 +206,14 @@ async def _inject(job: Job, phase: str, context) -> bool:
     H.attempts[key] += 1
     attempt = H.attempts[key]
     fault = H.faults.get(key)
+    if fault is not None and attempt > fault["count"] and key in H.passed:
+        H.passed[key].set()  # the faulty job got past its failures: release the jobs it holds
     if fault is None or attempt > fault["count"]:
         return False
+    if fault.get("after") and attempt == 1:
+        for j in fault["after"]:
+            await H.done[j].wait()
+        H.ev("after_gate_open", job=job.name, after=list(fault["after"]))
     if fault.get("barrier") is not None and attempt == 1:
         b = H.barriers[fault["barrier"]]
         b.arrived.append(job.name)
@@ -333,6 +355,11 @@ class VfFailCommand(Command):
                    in_tag=get_tag(job.inputs.values()) if job.inputs else None)
         H.execs.setdefault(job.name, []).append(rec)
         H.events.append(dict(t=rec["start"], ev="exec_start", job=job.name, n=rec["n"]))
+        if job.name in H.holds and not all(e.is_set() for e in H.holds[job.name]):
+            H.ev("held", job=job.name)
+            for e in H.holds[job.name]:
+                await e.wait()  # RUNNING until the faulty sibling passes (or the engine cancels us)
+            H.ev("released", job=job.name)
         Sched.inflight += 1
         try:
             # a job takes a seeded number of loop turns (completion orders vary with the seed)
@@ -367,6 +394,8 @@ class VfFailCommand(Command):
                 else:
                     raise NotImplementedError(self.op)
                 rec["outcome"] = "ok"
+                if job.name in H.done:
+                    H.done[job.name].set()
                 rec["out"] = value if self.op == "inc" else [v["path"] for v in (value if isinstance(value, list) else [value])]
                 out = CommandOutput(value, Status.COMPLETED)
             except OSError as e:  # an input vanished (somebody's fail-stop): a genuine job failure
